@@ -87,6 +87,65 @@ class World(object):
             else:
                 self.pos += 1
 
+    # ---- shared wrappers: select/poll with virtual time, os.read on the reader's descriptor ----
+    def do_select(self, real, timeout):
+        """`real(t)` performs the real select/poll with timeout t and returns the ready list"""
+        self.before_reader_step()
+        if timeout == 0:
+            r = real(0)
+            self.log(e='step', k='select0', ready=bool(r), **self.observe())
+            return r
+        r = real(0)
+        if not r:
+            if timeout is None:
+                self.log(e='step', k='selectT', ready=False, **self.observe())
+                raise WouldBlock('select(None) with nothing readable and no peer action scheduled before it')
+            self.clock.advance(timeout)
+        self.log(e='step', k='selectT', ready=bool(r), **self.observe())
+        return r
+
+    def select_wrappers(self, real_select, real_poll):
+        world = self
+
+        def sel(iwtd, owtd, ewtd, timeout=None):
+            if world.active and iwtd == [world.reader_fd]:
+                r = world.do_select(lambda t: real_select(iwtd, owtd, ewtd, t)[0], timeout)
+                return (r, [], [])
+            return real_select(iwtd, owtd, ewtd, timeout)
+
+        def pol(fds, timeout=None):
+            if world.active and fds == [world.reader_fd]:
+                return world.do_select(lambda t: real_poll(fds, t), timeout)
+            return real_poll(fds, timeout)
+        return sel, pol
+
+    def os_proxy(self):
+        world = self
+
+        class OsProxy(object):
+            def read(self_, fd, n):
+                if world.active and fd == world.reader_fd:
+                    world.before_reader_step()
+                    try:
+                        data = os.read(fd, n)
+                    except OSError as e:
+                        # flag_eof is set by the caller right after this exception: not observable yet
+                        o = world.observe()
+                        o.pop('flagEof', None)
+                        world.log(e='step', k='read', n=0, err=errno.errorcode.get(e.errno, str(e.errno)), **o)
+                        raise
+                    world.nread += len(data)
+                    o = world.observe()
+                    if not data:
+                        o.pop('flagEof', None)
+                    world.log(e='step', k='read', n=len(data), **o)
+                    return data
+                return os.read(fd, n)
+
+            def __getattr__(self_, name):
+                return getattr(os, name)
+        return OsProxy()
+
 
 class PtyWorld(World):
     """real pexpect.spawn on a real pty with a steered /bin/sh child"""
@@ -127,33 +186,7 @@ class PtyWorld(World):
         self._saved = (ps.select_ignore_interrupts, ps.poll_ignore_interrupts, pexpect.spawnbase.os,
                        self.child.ptyproc.isalive)
         world = self
-
-        def do_select(real, timeout):
-            world.before_reader_step()
-            if timeout == 0:
-                r = real(0)
-                world.log(e='step', k='select0', ready=bool(r), **world.observe())
-                return r
-            r = real(0)
-            if not r:
-                if timeout is None:
-                    world.log(e='step', k='selectT', ready=False, **world.observe())
-                    raise WouldBlock('select(None) with nothing readable and no peer action scheduled before it')
-                world.clock.advance(timeout)
-            world.log(e='step', k='selectT', ready=bool(r), **world.observe())
-            return r
-
-        def sel(iwtd, owtd, ewtd, timeout=None):
-            if world.active and iwtd == [world.reader_fd]:
-                r = do_select(lambda t: self._saved[0](iwtd, owtd, ewtd, t)[0], timeout)
-                return (r, [], [])
-            return self._saved[0](iwtd, owtd, ewtd, timeout)
-
-        def pol(fds, timeout=None):
-            if world.active and fds == [world.reader_fd]:
-                return do_select(lambda t: self._saved[1](fds, t), timeout)
-            return self._saved[1](fds, timeout)
-
+        sel, pol = self.select_wrappers(self._saved[0], self._saved[1])
         orig_isalive = self.child.ptyproc.isalive
 
         def isalive():
@@ -167,29 +200,9 @@ class PtyWorld(World):
             world.log(e='step', k='isalive', alive=bool(r), **world.observe())
             return r
 
-        class OsProxy(object):
-            def read(self_, fd, n):
-                if world.active and fd == world.reader_fd:
-                    world.before_reader_step()
-                    try:
-                        data = os.read(fd, n)
-                    except OSError as e:
-                        # flag_eof is set by the caller right after this exception: not observable yet
-                        o = world.observe()
-                        o.pop('flagEof')
-                        world.log(e='step', k='read', n=0, err=errno.errorcode.get(e.errno, str(e.errno)), **o)
-                        raise
-                    world.nread += len(data)
-                    world.log(e='step', k='read', n=len(data), **world.observe())
-                    return data
-                return os.read(fd, n)
-
-            def __getattr__(self_, name):
-                return getattr(os, name)
-
         ps.select_ignore_interrupts = sel
         ps.poll_ignore_interrupts = pol
-        pexpect.spawnbase.os = OsProxy()
+        pexpect.spawnbase.os = self.os_proxy()
         self.child.ptyproc.isalive = isalive
         self.clock.install(pexpect.pty_spawn, pexpect.expect, pexpect.utils)
 
@@ -251,3 +264,180 @@ class PtyWorld(World):
             self.clock.advance(args[0] if args else 1)
         else:
             raise ValueError(name)
+
+
+class FdWorld(World):
+    """real pexpect.fdpexpect.fdspawn on a pipe / a pty master / a socket descriptor"""
+
+    def __init__(self, workdir, kind='pipe', use_poll=False, encoding=None, unit=lambda i: bytes([65 + i % 26])):
+        import pty, socket
+        World.__init__(self)
+        self.kind = kind
+        self.unit = unit
+        self.written = b''
+        self.nunits = 0
+        self.nread = 0
+        self.peer_open = True
+        self.peer_exited = False
+        self._keep = []
+        if kind == 'pipe':
+            r, w = os.pipe()
+            self.reader_fd, self.wfd = r, w
+            self._w = lambda d: os.write(w, d)
+            self._c = lambda: os.close(w)
+        elif kind == 'pty':
+            m, sl = pty.openpty()
+            tty.setraw(sl)
+            self.reader_fd = m
+            self._w = lambda d: os.write(sl, d)
+            self._c = lambda: os.close(sl)
+        elif kind == 'sockfd':
+            a, b = socket.socketpair()
+            self._keep = [a, b]
+            self.reader_fd = a.fileno()
+            self._w = lambda d: b.sendall(d)
+            self._c = lambda: b.close()
+        else:
+            raise ValueError(kind)
+        self.child = pexpect.fdpexpect.fdspawn(self.reader_fd, timeout=5, use_poll=use_poll, encoding=encoding)
+        self.child.delayafterread = None
+        fp = pexpect.fdpexpect
+        self._saved = (fp.select_ignore_interrupts, fp.poll_ignore_interrupts, pexpect.spawnbase.os)
+        fp.select_ignore_interrupts, fp.poll_ignore_interrupts = self.select_wrappers(self._saved[0], self._saved[1])
+        pexpect.spawnbase.os = self.os_proxy()
+        self.clock.install(pexpect.fdpexpect, pexpect.expect, pexpect.utils) if hasattr(pexpect.fdpexpect, 'time') else \
+            self.clock.install(pexpect.expect, pexpect.utils)
+
+    def observe(self):
+        return {'lo': self.nread, 'flagEof': bool(self.child.flag_eof)}
+
+    def peer(self, name, args):
+        if name == 'PeerWrite':
+            data = b''.join(self.unit(self.nunits + i) for i in range(args[0]))
+            self.nunits += args[0]
+            self._w(data)
+            self.written += data
+        elif name == 'PeerClose':
+            self._c()
+            self.peer_open = False
+        elif name == 'Tick':
+            self.clock.advance(args[0] if args else 1)
+        else:
+            raise ValueError(name)
+
+    def close(self):
+        fp = pexpect.fdpexpect
+        fp.select_ignore_interrupts, fp.poll_ignore_interrupts, pexpect.spawnbase.os = self._saved
+        self.clock.uninstall()
+        self.active = False
+        if self.peer_open:
+            try:
+                self._c()
+            except OSError:
+                pass
+        if self.kind == 'sockfd':
+            for x in self._keep:
+                try:
+                    x.close()
+                except OSError:
+                    pass
+        else:
+            try:
+                os.close(self.reader_fd)
+            except OSError:
+                pass
+
+
+class SockWorld(World):
+    """real pexpect.socket_pexpect.SocketSpawn on one end of a socketpair, through a proxy socket
+    object that turns every socket call of the reader into a recorded step"""
+
+    def __init__(self, workdir, user_timeout=None, encoding=None, unit=lambda i: bytes([65 + i % 26])):
+        import socket
+        from pexpect import socket_pexpect
+        World.__init__(self)
+        self.unit = unit
+        self.written = b''
+        self.nunits = 0
+        self.nread = 0
+        self.peer_open = True
+        self.peer_exited = False
+        a, b = socket.socketpair()
+        a.settimeout(user_timeout)
+        self.a, self.b = a, b
+        self.user_timeout = user_timeout
+        self.reader_fd = a.fileno()
+        world = self
+
+        class SockProxy(object):
+            def gettimeout(self_):
+                return a.gettimeout()
+
+            def settimeout(self_, t):
+                if world.active:
+                    world.before_reader_step()
+                a.settimeout(t)
+                if world.active:
+                    world.log(e='step', k='settimeout', **world.observe())
+
+            def recv(self_, n):
+                if not world.active:
+                    return a.recv(n)
+                world.before_reader_step()
+                t = a.gettimeout()
+                import select as _sel
+                ready = _sel.select([a], [], [], 0)[0]
+                if not ready:
+                    if t is None:
+                        world.log(e='step', k='recv', n=0, err='block', **world.observe())
+                        raise WouldBlock('recv() on a blocking socket with nothing readable')
+                    if t > 0:
+                        world.clock.advance(t)
+                        world.log(e='step', k='recv', n=0, err='timeout', **world.observe())
+                        raise socket.timeout('timed out')
+                    # t == 0: let the real non-blocking socket answer
+                try:
+                    data = a.recv(n)
+                except BaseException as e:
+                    world.log(e='step', k='recv', n=0, err=type(e).__name__, **world.observe())
+                    raise
+                world.nread += len(data)
+                o = world.observe()
+                if not data:
+                    o.pop('flagEof', None)
+                world.log(e='step', k='recv', n=len(data), **o)
+                return data
+
+            def __getattr__(self_, name):
+                return getattr(a, name)
+
+        self.child = socket_pexpect.SocketSpawn(SockProxy(), timeout=5, encoding=encoding)
+        self.child.delayafterread = None
+        self.clock.install(pexpect.expect, pexpect.utils)
+
+    def observe(self):
+        t = self.a.gettimeout()
+        return {'lo': self.nread, 'flagEof': bool(self.child.flag_eof), 'sockTimeout': -1 if t is None else int(t)}
+
+    def peer(self, name, args):
+        if name == 'PeerWrite':
+            data = b''.join(self.unit(self.nunits + i) for i in range(args[0]))
+            self.nunits += args[0]
+            self.b.sendall(data)
+            self.written += data
+        elif name == 'PeerClose':
+            self.b.close()
+            self.peer_open = False
+        elif name == 'Tick':
+            self.clock.advance(args[0] if args else 1)
+        else:
+            raise ValueError(name)
+
+    def close(self):
+        self.clock.uninstall()
+        self.active = False
+        for x in (self.a, self.b):
+            try:
+                x.close()
+            except OSError:
+                pass
